@@ -34,7 +34,9 @@ RULE = ('cases from one PRNG: random fibre (length 0.1-300 km in km or m, scalar
         'grid (1-120 channels quick, -400 thorough; uniform, mixed baud/slot/power/gaps, mixed power only); ~12 % malformed '
         '(loss table not covering the comb, overlapping slots, baud rate above slot width); ~15 % sequences of 2-4 different '
         'combs (same channel count, first/last frequency and first baud rate; interior baud rates / frequencies / powers '
-        'differ; also A, B, A) evaluated in succession on ONE Fiber object. A case is non-trivial when it '
+        'differ; also A, B, A) evaluated in succession on ONE Fiber object; ~8 % lines of 2-4 fibres crossed by ONE spectrum '
+        'object, at least two of them equal in type_variety, length and loss coefficient but with overridden dispersion / '
+        'slope / gamma / effective area / reference wavelength, in both orders. A case is non-trivial when it '
         'has at least 2 channels (SPM and XPM weights both used) and was accepted; distinct = canonical JSON of the case')
 MODEL_SCOPE = ('modelled: NliSolver.compute_nli (gn_model_analytic branch), _gn_analytic, _psi, effective_length, '
                'Fiber.loss_coef_func/alpha/beta2 (scalar, slope and table branches)/gamma, FiberParams reference '
@@ -98,8 +100,45 @@ def gen_sequence(rng, tier, widen):
     return {'kind': 'sequence', 'fibre': fib, 'combs': combs}
 
 
+def gen_line(rng, tier, widen):
+    """ONE spectrum object crossing 2-4 fibres in a row (what a path propagation does). At least two of the fibres share
+    type_variety, length and loss coefficient but differ in dispersion / dispersion slope / gamma / effective area /
+    reference wavelength (per-element overrides, e.g. one NZDSF-like span in an SSMF line); crossed in the given and in the
+    reversed order. Every fibre must generate the closed-form NLI of ITS OWN coefficients on the spectrum entering it."""
+    comb = FB.gen_comb(rng, 24 if tier == 'quick' else 60, widen)
+    base = FB.gen_fibre(rng, min(comb['f']) - 1e9, max(comb['f']) + 1e9, widen, lumped=False)
+    for key in ('dispersion_per_frequency', 'dispersion_slope', 'gamma', 'effective_area', 'ref_wavelength', 'ref_frequency'):
+        base.pop(key, None)
+    base.setdefault('dispersion', 1.67e-5)
+    base['length'] = round(rng.uniform(20, 100), 3) if base['length_units'] == 'km' else round(rng.uniform(20e3, 100e3), 1)
+    k = rng.choice([2, 2, 3, 4])
+    fibres = [copy.deepcopy(base)]
+    for _ in range(k - 1):
+        q = copy.deepcopy(base)
+        what = rng.sample(['dispersion', 'slope', 'gamma', 'area', 'ref'], rng.choice([1, 1, 2]))
+        if 'dispersion' in what:
+            q['dispersion'] = rng.choice([4e-6, 5e-6, 2.1e-5, -1.67e-5, 8e-6])
+        if 'slope' in what:
+            q['dispersion_slope'] = rng.choice([0.0, 58.0, 70.0])
+        if 'gamma' in what:
+            q['gamma'] = rng.choice([0.0009, 0.0015, 0.002])
+        if 'area' in what:
+            q['effective_area'] = rng.choice([55e-12, 72e-12, 125e-12])
+        if 'ref' in what:
+            q['ref_wavelength'] = rng.choice([1530e-9, 1565e-9, 1600e-9])
+        if rng.random() < 0.2:
+            q['length'] = round(q['length'] * rng.choice([0.5, 1.5]), 3)      # an odd one out
+        fibres.append(q)
+    rng.shuffle(fibres)
+    return {'kind': 'line', 'comb': comb, 'fibres': fibres, 'type_variety': rng.choice(['SSMF', 'SSMF', 'NZDF']),
+            'regain': rng.random() < 0.7}
+
+
 def gen(rng, tier, widen=False):
-    if rng.random() < 0.15:
+    r_ = rng.random()
+    if r_ < 0.08:
+        return gen_line(rng, tier, widen)
+    if r_ < 0.22:
         return gen_sequence(rng, tier, widen)
     nmax = 120 if tier == 'quick' else 400
     if tier == 'thorough' and rng.random() < 0.8:
@@ -212,9 +251,73 @@ def _run_sequence(case, drv):
     return res
 
 
+def _run_line(case, drv):
+    res = Result()
+    comb = case['comb']
+    n = len(comb['f'])
+    worst = 0.0
+    for tag, fibres in (('given order', case['fibres']), ('reversed order', case['fibres'][::-1])):
+        si = _si(comb)                                   # ONE object for the whole line
+        for k, fibp in enumerate(fibres):
+            fiber = FB.mk_fiber(fibp, uid=f'f{k}', type_variety=case['type_variety'])
+            freq = [float(x) for x in si.frequency]
+            baud = [float(x) for x in si.baud_rate]
+            pw = [float(x) for x in si.pch]
+            before = np.array(si._nli_ratio, dtype=float)
+            p_before = np.array(si.pch, dtype=float)
+            si = fiber(si)
+            after = np.array(si._nli_ratio, dtype=float)
+            share = (after - before) / (1 - before)      # NLI generated in this fibre / power entering its glass
+            # the share is a difference of accumulated ratios: its conditioning is accumulated / generated (class D when the
+            # line was not re-amplified and the later fibres generate almost nothing)
+            cond = float(np.max(before / np.maximum(share, 1e-300))) if np.all(share > 0) else float('inf')
+            if cond > 1e6:
+                res.ill += 1
+                res.stats.update({'line_fibre_share_ill_conditioned': 1})
+                if case['regain']:
+                    si.apply_gain_db(10 * np.log10(p_before / np.array(si.pch)))
+                continue
+            noise = 4e-16 * cond
+            att = fibp['con_in'] + fibp.get('att_in', 0)
+            ans = drv.ask('c03.ratio', fibre=FB.fibre_json(fibp), att_in_db=f2b(att), f=fl(freq), b=fl(baud), p=fl(pw))
+            name = f'Fiber.__call__ NLI share[fibre {k + 1} of {len(fibres)} crossed by one spectrum object, {tag}]'
+            res.cmp_floats(name, share, [b2f(x) for x in ans['ratio']], rel=1e-7 + noise, abs_=0.0)
+            L = FB.length_m(fibp)
+            al = [FB.alpha_ref(fibp, f) for f in freq]
+            b2 = [FB.beta2_ref(fibp, f) for f in freq]
+            ga = [FB.gamma_ref(fibp, f) for f in freq]
+            pin = [x * 10 ** (-att / 10) for x in pw]
+            want = FB.gn_closed_form(L, freq, baud, pin, al, b2, ga)
+            tol = 1e-7 + noise + _ambiguity(al, b2, ga)
+            for i in range(n):
+                w = want[i] / pin[i]
+                worst = max(worst, abs(share[i] - w) / w)
+                if abs(share[i] - w) > tol * w:
+                    res.fail(f'line: fibre {k + 1} of {len(fibres)} ({tag}) crossed by the same spectrum object: channel {i}: NLI '
+                             f'share {share[i]:.10e}, closed form of THIS fibre (dispersion {fibp.get("dispersion")}, slope '
+                             f'{fibp.get("dispersion_slope")}, gamma {fibp.get("gamma")}, area {fibp.get("effective_area")}) '
+                             f'{w:.10e} (tolerance {tol:.3g})', channel=i, fibre=k)
+                    break
+            if case['regain']:
+                si.apply_gain_db(10 * np.log10(p_before / np.array(si.pch)))      # ideal gain: back to the launch powers
+    same = sum(1 for a in case['fibres'] for b in case['fibres'] if a is not b
+               and (a['length'], a['length_units'], json_key(a['loss_coef'])) == (b['length'], b['length_units'], json_key(b['loss_coef']))) // 2
+    res.nontrivial = n >= 2
+    res.stats.update({'kind_line': 1, f'line_fibres_{len(case["fibres"])}': 1, 'line_pairs_same_type_length_loss': same,
+                      'line_channels': n, 'line_regain': int(case['regain'])})
+    return res
+
+
+def json_key(x):
+    import json
+    return json.dumps(x, sort_keys=True)
+
+
 def _run(case, drv):
     if case['kind'] == 'sequence':
         return _run_sequence(case, drv)
+    if case['kind'] == 'line':
+        return _run_line(case, drv)
     from gnpy.core.science_utils import NliSolver
     res = Result()
     fibp, comb = case['fibre'], case['comb']
@@ -411,6 +514,24 @@ def _pw(comb):
 
 
 def shrink_candidates(case):
+    if case['kind'] == 'line':
+        if len(case['fibres']) > 2:
+            for i in range(len(case['fibres'])):
+                c = copy.deepcopy(case)
+                del c['fibres'][i]
+                yield c
+        n = len(case['comb']['f'])
+        for i in range(n):
+            if n > 1:
+                c = copy.deepcopy(case)
+                for key in ('f', 'b', 'slot', 'p_dbm'):
+                    del c['comb'][key][i]
+                yield c
+        if case['regain']:
+            c = copy.deepcopy(case)
+            c['regain'] = False
+            yield c
+        return
     if case['kind'] == 'sequence':
         k = len(case['combs'])
         if k > 2:
